@@ -208,3 +208,23 @@ func VerifAdvForgeCookie(cookieKey [KeyLen]byte, kp *keys.KEMKeyPair, addr *net.
 	n, err := hs.writeCookie(b, k)
 	return b[:n], err
 }
+
+// VerifSkipSendCounters moves the send counter forward by d (the state after d packets that were sent and
+// lost in a burst) and returns the new value.
+func (c *Client) VerifSkipSendCounters(d uint64) uint64 {
+	if c.ss == nil {
+		return 0
+	}
+	c.ss.m.Lock()
+	defer c.ss.m.Unlock()
+	c.ss.count += d
+	return c.ss.count
+}
+
+// VerifSkipSendCounters is the same for the server side of a session.
+func (h *Handle) VerifSkipSendCounters(d uint64) uint64 {
+	h.ss.m.Lock()
+	defer h.ss.m.Unlock()
+	h.ss.count += d
+	return h.ss.count
+}
